@@ -233,12 +233,20 @@ def main():
         for mode in ("rev", "fwd"):
             try:
                 if mode == "rev":
-                    got = float(onp.sum(onp.asarray(grad(s_ag)(x0.copy())) * d))
+                    gfull = onp.asarray(grad(s_ag)(x0.copy()))
                 else:
                     got = float(make_jvp(s_ag)(x0.copy())(d)[1])
             except BaseException:
                 dist("option-sweep:%s:raises" % mode)
                 continue
+            if mode == "rev":
+                if gfull.shape != x0.shape:
+                    dist("option-sweep:rev:WRONG")
+                    out["bad"].append({"callable": name, "mode": mode,
+                                       "what": "option accepted without an exception but the gradient has shape %s for an argument of shape %s" % (gfull.shape, x0.shape),
+                                       "site": {"callable": name.split("(")[0], "kind": "wrong-option", "mode": mode}})
+                    continue
+                got = float(onp.sum(gfull * d))
             if not abs(got - est[1]) <= 1e-5 * (1 + abs(est[1])):
                 dist("option-sweep:%s:WRONG" % mode)
                 out["bad"].append({"callable": name, "mode": mode,
@@ -247,6 +255,33 @@ def main():
             else:
                 dist("option-sweep:%s:right" % mode)
 
+    # a traced value pushed through Python's scalar protocol or into a plain preallocated array: it either stays
+    # differentiated or the attempt raises - it never silently becomes a constant
+    import math as _math
+
+    def _fill(z):
+        buf = onp.zeros(3)
+        buf[0] = z[0] * z[0]
+        buf[1] = anp.sin(z[1])
+        buf[2] = 1.0
+        return anp.sum(anp.array(buf) * onp.array([1.0, 2.0, 3.0])) + 0.0 * anp.sum(z)
+
+    def _fill_slice(z):
+        buf = onp.empty(2)
+        buf[:] = [z[0], z[1]]
+        return anp.sum(buf * buf) + 0.0 * anp.sum(z)
+    esc = onp.array([1.3, 0.4])
+    ror("escape: buf[i] = traced", lambda z: anp.reshape(_fill(z), (1,)), esc)
+    ror("escape: buf[:] = [traced, traced]", lambda z: anp.reshape(_fill_slice(z), (1,)), esc)
+    ror("escape: float(traced)", lambda z: anp.reshape(float(z[0]) ** 2 + 0.0 * anp.sum(z), (1,)), esc)
+    ror("escape: int(traced)", lambda z: anp.reshape(int(z[0] * 3.0) * z[1] + z[0] * z[0], (1,)), esc)
+    ror("escape: complex(traced)", lambda z: anp.reshape(anp.real(complex(z[0]) ** 2) + 0.0 * anp.sum(z), (1,)), esc)
+    ror("escape: math.exp(traced)", lambda z: anp.reshape(_math.exp(z[0]) + 0.0 * anp.sum(z), (1,)), esc)
+    ror("escape: math.sqrt(traced)", lambda z: anp.reshape(_math.sqrt(z[0]) * z[1], (1,)), esc)
+    ror("escape: numpy.float64(traced)", lambda z: anp.reshape(onp.float64(z[0]) ** 2 + 0.0 * anp.sum(z), (1,)), esc)
+    ror("escape: '%f' % traced", lambda z: anp.reshape(float("%.17g" % z[0]) ** 2 + 0.0 * anp.sum(z), (1,)), esc)
+    ror("escape: traced.item()", lambda z: anp.reshape(z[0].item() ** 2 + 0.0 * anp.sum(z), (1,)), esc)
+    ror("escape: traced.tolist()", lambda z: anp.reshape(z.tolist()[0] ** 2 + 0.0 * anp.sum(z), (1,)), esc)
     rs = onp.random.RandomState(5)
     vec = rs.uniform(0.4, 2.0, 4) * onp.array([1, -1, 1, -1.0])
     mat = rs.uniform(0.4, 2.0, (3, 3)) * rs.choice([-1.0, 1.0], (3, 3))
